@@ -314,8 +314,22 @@ def run(program, rep, tier):
         and not any(n in ast.walk(c) for c in classes)]
     rets = [n for n in ast.walk(g.node) if isinstance(n, ast.Return)
             and not any(n in ast.walk(c) for c in classes)]
-    fresh = all(isinstance(r.value, ast.Call) and norm(r.value.func)
-                == cls.name for r in rets) and bool(rets)
+    def _is_class_expr(fn_):
+        # the generated class itself, or an element of a container that only
+        # ever receives that class (the class is cached, instances are not)
+        if norm(fn_) == cls.name:
+            return True
+        if isinstance(fn_, ast.Subscript) and dotted(fn_.value):
+            cont = dotted(fn_.value)
+            vals = [n.value for fn2 in program.all_functions()
+                    for n in ast.walk(fn2.node) if isinstance(n, ast.Assign)
+                    and any(isinstance(t, ast.Subscript) and dotted(t.value)
+                            == cont for t in n.targets)]
+            return bool(vals) and all(isinstance(v, ast.Name)
+                                      and v.id == cls.name for v in vals)
+        return False
+    fresh = all(isinstance(r.value, ast.Call) and _is_class_expr(
+        r.value.func) for r in rets) and bool(rets)
     rep.check(not stores and fresh, 'C17.mirror', site,
               stores[0] if stores else (rets[0] if rets else 'return'),
               'every call builds and returns a new snapshot',
